@@ -15,20 +15,31 @@ class Boom(Exception):
         self.at = at
 
 
+class AbortRequest(BaseException):
+    """not derived from Exception, with constructor arguments (cannot be re-created from its class alone)"""
+
+    def __init__(self, status, location):
+        BaseException.__init__(self, status, location)
+        self.status = status
+        self.location = location
+
+
 class State:
     cnt = 0
     k = -1
-    last = None        # the Boom object raised (identity is checked by `unhandled_propagates_unchanged`)
+    last = None        # the object raised (identity is checked by `unhandled_propagates_unchanged`)
+    factory = None     # optional: evaluation point number -> exception object to raise instead of Boom
     trace = None       # optional list of labels of the evaluation points passed
 
 
 STATE = State()
 
 
-def reset(k=-1, trace=False):
+def reset(k=-1, trace=False, factory=None):
     STATE.cnt = 0
     STATE.k = k
     STATE.last = None
+    STATE.factory = factory
     STATE.trace = [] if trace else None
 
 
@@ -38,7 +49,7 @@ def tick(label="?"):
     if STATE.trace is not None:
         STATE.trace.append(label)
     if i == STATE.k:
-        STATE.last = Boom(i)
+        STATE.last = STATE.factory(i) if STATE.factory is not None else Boom(i)
         raise STATE.last
     return i
 
